@@ -431,7 +431,14 @@ impl Check for C11 {
                     }
                 }
                 let kind = if containing { "containing" } else { "intersecting" };
-                if !is_sub(&gm, &multiset(&may)) {
+                // A zero-width node (MISSING token) exactly on a range boundary may or may not count as inside; with an
+                // optional / repeated sub-pattern the restricted run can then return the match without it, which the
+                // unrestricted run subsumes under the longer one: not decided.
+                let zero_width_on_boundary = xt.nodes.iter().any(|n| n.start == n.end && (n.start == a || n.start == b));
+                let quantified = q.ast.patterns.iter().any(|(it, _)| query::item_has_quantifier(it));
+                if zero_width_on_boundary && quantified {
+                    ctx.label("range:zero_width_on_boundary_unjudged");
+                } else if !is_sub(&gm, &multiset(&may)) {
                     let extra: Vec<_> = gm.keys().filter(|k| !may.contains(k)).take(3).collect();
                     ctx.fail(format!("C11:range:{kind}:unexpected_match{}", if wild_root { ":wildcard_root" } else { "" }), format!("{} returned a match that is not an unrestricted match whose root {} the range: {:?}\n{hdr}", cfg_desc.join(", "), if containing { "lies inside" } else { "intersects" }, extra));
                     return;
